@@ -27,9 +27,9 @@ func note(format string, a ...any) {
 
 func faultCases(prop, tier string, seed uint64) []Case {
 	r := newRand(subSeed(seed, prop, tier))
-	n, steps := 16, 10
+	n, steps := 64, 10
 	if tier == "thorough" {
-		n, steps = 160, 14
+		n, steps = 1200, 14
 	}
 	cfgs := someCfgs(r, 8)
 	var cases []Case
